@@ -269,6 +269,11 @@ func (s Schema) MarshalJSON() ([]byte, error) {
 			dep[k] = v
 		}
 		for k, v := range s.DependencyStrings {
+			if v == nil {
+				// A nil list would be written as null, which Unmarshal reads back
+				// as a schema (false); an empty list means the same and round-trips.
+				v = []string{}
+			}
 			dep[k] = v
 		}
 	}
